@@ -9,9 +9,11 @@ trap 'git -C /repo checkout -- . ; git -C /repo clean -fdq' EXIT
 git apply "$PATCH" || { echo "patch does not apply"; exit 2; }
 cd /verif
 for p in "$@"; do
+  cp evidence/$p.json /verif/.work/evidence.$p.keep 2>/dev/null   # evidence of the unchanged tree must survive the experiment
   out=$(VERIF_SEED=${VERIF_SEED:-1} ./vcheck.sh $p $TIER 2>&1); code=$?
   sig=$(echo "$out" | grep -m3 "signature:" | tr '\n' ';' | cut -c1-400)
   known=$(echo "$out" | grep -c "^KNOWN-FINDING")
   echo "$p exit=$code known=$known $sig"
   if [ $code -ne 0 ] && [ $code -ne 1 ]; then echo "$out" | tail -5; fi
+  [ -f /verif/.work/evidence.$p.keep ] && mv /verif/.work/evidence.$p.keep evidence/$p.json
 done
